@@ -144,9 +144,10 @@ pub fn real_sequence<T: Nums + Evaluate>(m: &mut Mon, r: &mut Rng, positive: boo
     } else {
         gen_ends_any(r, n).0
     };
-    let coeffs: Vec<Vec<f64>> = (0..ends.len())
+    let mut coeffs: Vec<Vec<f64>> = (0..ends.len())
         .map(|_| (0..T::LEN).map(|_| r.mixed(2.0)).collect())
         .collect();
+    repeat_some_pieces(r, &mut coeffs);
     let pw: Piecewise<T> = pw_from(&ends, &coeffs);
     let len = r.usize(1, 64);
     let pol = r.pick(&[Policy::Up, Policy::Up, Policy::Walk, Policy::Jumps, Policy::Repeats, Policy::Uniform]);
